@@ -1,3 +1,3 @@
 SPECIFICATION Spec
-INVARIANT C08 C03 C09a C09b C09c C10 C11 C12 C15 C16 C17 C17Distinct
+INVARIANT AllProps
 CHECK_DEADLOCK FALSE
